@@ -1,4 +1,5 @@
 import ScriggoV.Lemmas.WriterM
+import ScriggoV.Model.TemplateChunks
 import ScriggoV.Gen.WriteSites
 /-! C13 — a failing output writer aborts rendering with the writer's error.
 
@@ -41,6 +42,26 @@ theorem template_fail_at_k (items : List Prog) (hc : ∀ p ∈ items, Checked p)
 theorem escaper_shape (cs : List Bytes) :
     Checked (ofChunks cs) ∧ chunks (ofChunks cs) = cs ∧ okRet (ofChunks cs) = .ok :=
   ⟨checked_ofChunks cs, chunks_ofChunks cs, okRet_ofChunks cs⟩
+
+
+/-! ### straight-line templates with the escapers' own chunking -/
+open ScriggoV.TemplateChunks in
+/-- **A straight-line template body** (literal texts and shows of strings in HTML text,
+quoted/unquoted attribute, JS-string and CSS-string contexts, with the chunk sequences of the
+escaper models of C07): for every such body, every value and every failure position `k` within
+the render, exactly the first `k-1` writes of the successful render are accepted, `Write` is
+called `k` times and the writer's error comes back. The chunk lists of this model are compared
+with the real engine's `Write` sequence by the harness (tie "template-chunks"). -/
+theorem straightline_fail_at_k (items : List Item) (k : Nat) (h1 : 1 ≤ k)
+    (h2 : k ≤ (allChunks items).length) :
+    run k (body items) 0 = ⟨(allChunks items).take (k - 1), k, .writeErr⟩ := by
+  have h := template_fail_at_k (items.map Item.prog)
+    (by intro p hp; obtain ⟨i, _, rfl⟩ := List.mem_map.1 hp; exact checked_ofChunks _)
+    (by intro p hp; obtain ⟨i, _, rfl⟩ := List.mem_map.1 hp; exact okRet_ofChunks _) k h1
+  have hc : ((items.map Item.prog).map chunks) = items.map Item.chunks := by
+    simp [List.map_map, Function.comp_def, Item.prog, chunks_ofChunks]
+  rw [hc] at h
+  exact h h2
 
 /-! ### the shape hypothesis, checked against the code that exists now -/
 
